@@ -411,7 +411,8 @@ Definition is_het (gt : list Z) : bool :=
   match gt with [] => true | a :: t => negb (forallb (Z.eqb a) t) end.
 (* an output call: alleles, phased?, PS *)
 Definition call : Type := (list Z * bool * option Z)%type.
-(* in_gt: the input alleles of a sample that has superreads ([] if missing/partial), in_ps its PS value.
+(* in_gt: the input alleles of a sample that has superreads (-1 for a missing allele), in_ps its PS value.
+   A genotype with a missing allele is not sorted and counts as "no genotype" (Genotype([])).
    pos = record.start (0-based).  _remove_existing_phasing (since /repo 9ec9805: for every target sample of EVERY
    record, also records the writer then skips) clears PS/PQ/HP, unphases GT and sorts it when fully called - so the
    input PS never survives (in_ps is ignored).  A record at which no sample has both a component and a phase is
@@ -420,7 +421,7 @@ Definition call : Type := (list Z * bool * option Z)%type.
    component and a phase and the (possibly replaced) genotype is heterozygous, PS = component + 1. *)
 Definition write_call (comps : dict) (phases : list (Z * list Z)) (pos : Z) (in_gt : list Z) (in_ps : option Z)
   (others : bool) : call :=
-  let base := sortZ in_gt in
+  let base := if memZ undet in_gt then in_gt else sortZ in_gt in
   match lookup_phase phases pos with
   | Some ph =>
       let changed := negb (col_eqb (sortZ ph) base) in
@@ -457,9 +458,16 @@ Definition optZ_eqb (a b : option Z) : bool :=
 (* genotype clause: a phased call lists exactly the input alleles with multiplicities, the input genotype is
    fully called and heterozygous, and it carries a phase set; an unphased call keeps the input alleles
    (as a multiset: existing phasing of a processed sample is removed, alleles sorted) and its PS field is empty or
-   the untouched input value (the shared writer skips records without any new phase, as for diploid phasing) *)
+   the untouched input value; a call whose input genotype is missing, partially missing or homozygous comes out
+   unphased with exactly the input alleles in the input order *)
+(* a call that must pass through untouched: genotype missing, partially missing or homozygous *)
+Definition fixed_gt (g : list Z) : bool :=
+  memZ undet g || negb (is_het g) || match g with [] => true | _ => false end.
 Definition gt_clause (o : obs) : bool :=
-  if o_phased o
+  if fixed_gt (o_in o)
+  then negb (o_phased o) && col_eqb (o_out o) (o_in o)
+       && (match o_ps o with None => true | Some _ => false end || optZ_eqb (o_ps o) (o_inps o))
+  else if o_phased o
   then same_mset (o_out o) (o_in o) && negb (memZ undet (o_in o)) && is_het (o_in o)
        && match o_in o with [] => false | _ => true end
        && match o_ps o with Some _ => true | None => false end
